@@ -527,6 +527,32 @@ def face_table_checks(i, out, mesh, el, stage):
                 "INTO the element while the other rows point out (for det J > 0)" if bad else "out of the element for det J > 0 (into it for det J < 0), consistently"),
             [b[0] for b in bad], [])
     m2 = MeshIO.Surface_reconstruction(Mesh({g.elemType: g for g in main_groups(mesh)}))
+    # conformity predicate of C08_conform.v (mesh_interior_faces_cancel): the oriented corner cycles of
+    # all element faces, written smallest vertex first, contain no duplicate; the faces without
+    # reversed partner are exactly the boundary elements Surface_reconstruction creates
+    def canon(c):
+        k = c.index(min(c))
+        return tuple(c[k:] + c[:k])
+    def rev(c):
+        return (c[0],) + tuple(reversed(c[1:]))
+    F = []
+    for g in main_groups(mesh):
+        conn = np.asarray(g.connect)
+        for row in g.faces:
+            nc = 3 if len(row) in (3, 6) else 4
+            for e in range(g.Ne):
+                F.append(canon([int(conn[e, int(a)]) for a in list(row)[:nc]]))
+    S = set(F)
+    dup = len(F) - len(S)
+    bndF = set(tuple(sorted(f)) for f in S if rev(f) not in S)
+    recon = set()
+    for gb in m2.Get_list_groupElem(2):
+        nv = gb.Nvertex
+        for r in np.asarray(gb.connect):
+            recon.add(tuple(sorted(int(a) for a in r[:nv])))
+    res(out, i, "mesh-conformity:%s" % el, "conform:%s:%s" % (el, stage), dup == 0 and bndF == recon,
+        "%s (%s): %d oriented element faces, %d duplicated (conformity needs 0); faces without reversed partner %d, boundary elements of Surface_reconstruction %d, same sets: %s" % (
+            el, stage, len(F), dup, len(bndF), len(recon), bndF == recon), [dup, len(bndF)], [0, len(recon)])
     N, flux, per = boundary_integrals(m2, 3)
     V = mesh.volume
     L = float(np.abs(X).max()) + 1.0
@@ -634,7 +660,180 @@ def case_sequence(i, case, out):
         probe(mesh, "step %d after %s (%s number of reflections so far)" % (k + 1, label, par), "locate-after-move:%s:%s:%s" % (el, label, par))
 
 
-CASES = {"sequence": case_sequence, "purity": case_purity, "deformed": case_deformed, "faces": case_faces, "geom": case_geom, "locate_gmsh": case_locate_gmsh, "locate_single": case_locate_single, "outside": case_outside}
+# ------------------------------------------------------------------ group-local row != global node id
+SPLIT = {"QUAD4": ("TRI3", [[0, 1, 2], [0, 2, 3]]),
+         "HEXA8": ("PRISM6", [[0, 1, 2, 4, 5, 6], [0, 2, 3, 4, 6, 7]])}
+
+
+def renumbered_mesh(mesh, rng, variant):
+    """a mesh with the same geometry whose groups do NOT use the coordinate rows 0..n-1 in order:
+       'orphans'  : unused coordinate rows prepended / interspersed + random permutation of the numbering
+       'permuted' : random permutation of the node numbering only
+       'mixed'    : every other QUAD4 (HEXA8) split into two TRI3 (PRISM6): two groups of the main
+                    dimension, each using a subset of the rows; plus orphans + permutation"""
+    Mesher, ElemType, Points, Point, Mesh, MatrixType, F = _imports()
+    X = np.asarray(mesh.coord)
+    N = len(X)
+    groups = {g.elemType.name: np.asarray(g.connect) for g in main_groups(mesh)}
+    if variant == "mixed":
+        out = {}
+        for nm, conn in groups.items():
+            if nm in SPLIT:
+                tnm, rows = SPLIT[nm]
+                sel = np.arange(len(conn)) % 2 == 0
+                if sel.all():
+                    sel[-1] = False
+                parts = [conn[sel][:, r] for r in rows]
+                out[tnm] = np.vstack([out[tnm]] + parts) if tnm in out else np.vstack(parts)
+                if (~sel).any():
+                    out[nm] = conn[~sel]
+            else:
+                out[nm] = np.vstack([out[nm], conn]) if nm in out else conn
+        groups = out
+    n_orph = 0 if variant == "permuted" else N // 3 + 3
+    M = N + n_orph
+    perm = rng.permutation(M)
+    new_id = perm[:N]
+    Xn = np.zeros((M, 3))
+    lo, hi = X.min(0), X.max(0)
+    Xn[perm[N:]] = lo + rng.random((n_orph, 3)) * (hi - lo)      # orphan rows lie INSIDE the bounding box
+    Xn[new_id] = X
+    return Mesh({getattr(ElemType, nm): F.Create(getattr(ElemType, nm), new_id[conn], Xn) for nm, conn in groups.items()})
+
+
+def case_renumber(i, case, out):
+    rng = np.random.default_rng(case["seed"])
+    base, dim = build_mesh(case)
+    el = case["elem"]
+    f = poly_field(case["field"])
+    tol = TOL_ITER if case["iterative"] else TOL
+    for variant in case["variants"]:
+        mesh = renumbered_mesh(base, rng, variant)
+        tag = "%s%s" % (variant, mixed_tag(mesh))
+        ident = all(np.array_equal(np.asarray(g.nodes), np.arange(len(np.asarray(g.nodes)))) for g in main_groups(mesh))
+        scale = max(1.0, float(np.max(np.abs(f(mesh.coord)))))
+        inter, nodes, edges = query_pool(mesh, rng, 8)
+        pools = {"interior": inter, "node": nodes, "edge": edges}
+        def ev(m, P):
+            with warnings.catch_warnings():
+                warnings.simplefilter("ignore")
+                return np.asarray(m.Evaluate_dofsValues_at_coordinates(np.asarray(P, float), f(m.coord))).ravel()
+        for pname, pts in pools.items():
+            # reference = the SAME geometry with the original numbering (same elements or, for `mixed`,
+            # the unsplit ones: the fields used there are linear): the answers must not depend on the numbering.
+            # Single-point queries away from nodes are compared only between meshes with identical groups
+            # (the candidate search of the library — nearest node — is a known, listed limitation).
+            try:
+                b0, bR = ev(base, pts), ev(mesh, pts)
+                singles = pname == "node" or variant != "mixed"
+                if singles:
+                    s0 = np.array([ev(base, pts[k:k + 1])[0] for k in range(len(pts))])
+                    sR = np.array([ev(mesh, pts[k:k + 1])[0] for k in range(len(pts))])
+                else:
+                    s0 = sR = np.zeros(0)
+            except Exception as ex:
+                res(out, i, "locate-renumbered:%s:%s" % (variant, el), "renum:%s:%s:%s" % (el, tag, pname), False,
+                    "%s, numbering variant %s, %s points: raises %s: %s" % (el, tag, pname, type(ex).__name__, str(ex)[:150]))
+                continue
+            exact = f(pts)
+            d = max(float(np.max(np.abs(bR - b0))), float(np.max(np.abs(sR - s0))) if len(sR) else 0.0) / scale
+            if len(sR) and float(np.max(np.abs(sR - s0))) >= float(np.max(np.abs(bR - b0))):
+                k = int(np.argmax(np.abs(sR - s0))); how = "queried alone"; vR, v0 = sR[k], s0[k]
+            else:
+                k = int(np.argmax(np.abs(bR - b0))); how = "in a batch of %d" % len(pts); vR, v0 = bR[k], b0[k]
+            res(out, i, "locate-renumbered:%s:%s" % (variant, el), "renum:%s:%s:%s:%s" % (el, tag, pname, "id" if ident else "nonid"), d <= 10 * tol,
+                "%s, numbering variant %s (group rows %s global ids), %s points: max difference to the same geometry with the original numbering %.3e at %s %s: got %.12g, original numbering %.12g, exact %.12g" % (
+                    el, tag, "==" if ident else "!=", pname, d, pts[k].tolist(), how, vR, v0, exact[k]), d, 0)
+            if len(sR):
+                wrong = [k for k in range(len(pts)) if sR[k] != 0.0 and abs(sR[k] - bR[k]) > 10 * tol * scale]
+                res(out, i, "locate-single-vs-batch:%s:%s" % (variant, el), "renum1:%s:%s:%s" % (el, tag, pname), not wrong,
+                    "%s, variant %s, %s points: a located point gets %s value alone and inside a batch%s" % (
+                        el, tag, pname, "the same" if not wrong else "a DIFFERENT",
+                        "" if not wrong else " at %s (alone %.12g, in batch %.12g, exact %.12g)" % (pts[wrong[0]].tolist(), sR[wrong[0]], bR[wrong[0]], exact[wrong[0]])))
+        # measure is a matter of geometry only
+        m0, m1 = measure_of(base, dim), measure_of(mesh, dim)
+        res(out, i, "measure-renumbered:%s:%s" % (variant, el), "renumM:%s:%s" % (el, tag), abs(m0 - m1) <= TOL * m0,
+            "%s, variant %s: measure %.15g, same geometry with the original numbering %.15g" % (el, tag, m1, m0), m1, m0)
+
+
+# ------------------------------------------------------------------ order independence
+def observations(mesh):
+    """measures / integrals / normals / centre of every group, through the public queries."""
+    Mesher, ElemType, Points, Point, Mesh, MatrixType, F = _imports()
+    dim = mesh.dim
+    obs = {}
+    for g in main_groups(mesh) + list(mesh.Get_list_groupElem(dim - 1)):
+        nm = g.elemType.name
+        for mt in (MatrixType.mass, MatrixType.rigi):
+            obs["Integrate_e(1):%s:%s" % (nm, mt.name)] = np.asarray(g.Integrate_e(lambda x, y, z: 1, mt))
+            obs["weightedJacobian:%s:%s" % (nm, mt.name)] = np.asarray(g.Get_weightedJacobian_e_pg(mt))
+        obs["Integrate_e(x+2y-z):%s" % nm] = np.asarray(g.Integrate_e(lambda x, y, z: x + 2 * y - z, MatrixType.mass))
+        obs["center:%s" % nm] = np.asarray(g.center)
+        if g.dim in (1, 2):
+            obs["normals:%s" % nm] = np.asarray(g.Get_normals_e_pg(MatrixType.mass))
+    obs["measure"] = np.asarray(mesh.area if dim == 2 else mesh.volume)
+    obs["center"] = np.asarray(mesh.center)
+    return obs
+
+
+def location_calls(mesh, rng):
+    inter, nodes, edges = query_pool(mesh, rng, 4)
+    pts = np.vstack([inter, nodes[:2], edges[:2]])
+    X = np.asarray(mesh.coord)
+    u = 1 + X[:, 0] - 2 * X[:, 1] + 0.5 * X[:, 2]
+    with warnings.catch_warnings():
+        warnings.simplefilter("ignore")
+        for g in main_groups(mesh):
+            g.Get_Mapping(pts, needCoordinates=True)
+            g.Get_Mapping(pts[:1], needCoordinates=False)
+        mesh.Evaluate_dofsValues_at_coordinates(pts, u)
+
+
+def case_order(i, case, out):
+    """the same observations (measures, integrals, centres, normals) (A) on a fresh mesh object and (B) on
+    an identical fresh object AFTER point-location / mapping calls, and (C) on the object that went
+    through the moves, after location calls: identical results required, on the plain, moved and
+    mirrored configuration."""
+    rng = np.random.default_rng(case["seed"])
+    el = case["elem"]
+    if case.get("verts") is not None:
+        Mesher, ElemType, Points, Point, Mesh, MatrixType, F = _imports()
+        X, et, dim = place_nodes(el, case["verts"])
+        n = len(X)
+        X2 = np.vstack([X, X + np.array([5.0, 1.0, 0.5 if dim == 3 else 0.0])])
+        base = Mesh({et: F.Create(et, np.vstack([np.arange(n), np.arange(n) + n]), X2)})
+    else:
+        base, dim = build_mesh(case)
+    nsym = 0
+    for mo in [None] + case["motions"]:
+        if mo is not None:
+            apply_motion(base, mo, np.zeros((1, 3)))
+            nsym += mo["t"] == "symmetry"
+        stage = ("initial" if mo is None else "after-" + mo["t"]) + (":mirrored" if nsym % 2 else "")
+        A = explicit_copy(base, base.coord)
+        B = explicit_copy(base, base.coord)
+        obsA = observations(A)
+        location_calls(B, rng)
+        obsB = observations(B)
+        location_calls(base, rng)
+        obsC = observations(base)
+        for label, ob, how in (("locate-then-integrate", obsB, "a fresh mesh object on which points were located first"),
+                               ("moved-object", obsC, "the mesh object that was moved through the Mesh methods, after point location")):
+            bad = [(k, float(np.max(np.abs(ob[k] - obsA[k])))) for k in obsA if not (ob[k].shape == obsA[k].shape and np.array_equal(ob[k], obsA[k]))]
+            # the moved object may differ by round-off of the incremental moves: compare it with tolerance
+            if label == "moved-object":
+                sc = float(np.max(np.abs(np.asarray(base.coord)))) + 1.0
+                bad = [(k, d) for k, d in bad if d > 1e-9 * sc ** 3]
+            res(out, i, "order-dependence:%s:%s" % (label, el), "order:%s:%s:%s" % (el, stage, label), not bad,
+                "%s, %s: observations on %s vs the same observations on a fresh object (integrate first): %s" % (
+                    el, stage, how, "identical" if not bad else "DIFFER: " + "; ".join("%s by %.3e (e.g. %s vs %s)" % (k, d, np.ravel(ob[k])[:1].tolist(), np.ravel(obsA[k])[:1].tolist()) for k, d in bad[:4])),
+                [k for k, _ in bad], [])
+        meas = float(obsB["measure"])
+        res(out, i, "order-dependence:negative-measure:%s" % el, "orderpos:%s:%s" % (el, stage), meas > 0 and all(np.all(v > 0) for k, v in obsB.items() if k.startswith("Integrate_e(1)")),
+            "%s, %s: measure after locate-then-integrate %.12g (element integrals of 1 must be positive)" % (el, stage, meas), meas, float(obsA["measure"]))
+
+
+CASES = {"renumber": case_renumber, "order": case_order, "sequence": case_sequence, "purity": case_purity, "deformed": case_deformed, "faces": case_faces, "geom": case_geom, "locate_gmsh": case_locate_gmsh, "locate_single": case_locate_single, "outside": case_outside}
 
 
 def classify_exception(ex):
